@@ -69,7 +69,7 @@ func (eng *Engine) verifyFunctionSpec(fn *ssa.Function, modes Modes, spec map[st
 		if res.Err == "" && len(ct.Cuts) > 0 {
 			lines := eng.sourceLinesOf(fn)
 			for _, cut := range ct.Cuts {
-				if !strings.HasPrefix(cut.Anchor, "call:") && cut.Anchor != "go:" && !lines[anchorText(cut.Anchor)] {
+				if !strings.HasPrefix(cut.Anchor, "call:") && cut.Anchor != "go:" && cut.Anchor != "loopend:" && !lines[anchorText(cut.Anchor)] {
 					gone = true
 				}
 			}
